@@ -2,6 +2,7 @@
 interleaving of the writers' steps played by a controller over pipes)."""
 from __future__ import annotations
 
+import collections
 import os
 import select
 import shutil
@@ -97,12 +98,48 @@ def writers_of(spec, s=0):
     return out
 
 
-def play(fmt: str, spec, order: list[int] | None, root: Path):
+_PARENT = {"on": False, "root": "", "log": None, "finished": None}
+_PHOOKED = False
+
+
+def _parent_audit(event, args):
+    """Parent process, during a multi-writer call: which paths under the
+    dataset it opens for writing / renames, and which writers had finished
+    by then."""
+    if not _PARENT["on"] or event not in ("open", "os.rename"):
+        return
+    if threading.current_thread() is not threading.main_thread():
+        return
+    p = args[0] if event == "open" else args[1]
+    if isinstance(p, bytes):
+        p = p.decode(errors="ignore")
+    if not isinstance(p, (str, os.PathLike)):
+        return
+    p = os.fspath(p)
+    if not p.startswith(_PARENT["root"]):
+        return
+    if event == "open":
+        mode = args[1] if len(args) > 1 else ""
+        flags = args[2] if len(args) > 2 else 0
+        if not ((isinstance(mode, str) and any(c in mode for c in "wax+"))
+                or (isinstance(flags, int) and
+                    flags & (os.O_WRONLY | os.O_RDWR))):
+            return
+    _PARENT["log"].append((p, frozenset(_PARENT["finished"])))
+
+
+def play(fmt: str, spec, order: list[int] | None, root: Path, ds_=None,
+         s: int = 0, parent_log: list | None = None):
     """Run the multi-writer call once; order=None -> single_process=True.
-    Returns (dataset, results or exception string)."""
-    ds_ = D.create(root, fmt=fmt, eps=2)
-    writers = writers_of(spec)
+    Returns (dataset, results or exception string).  ds_ / s: a further call
+    (session s) on an existing dataset; parent_log: filled with (path written
+    by the parent, writers finished by then)."""
+    global _PHOOKED
+    if ds_ is None:
+        ds_ = D.create(root, fmt=fmt, eps=2)
+    writers = writers_of(spec, s)
     k = len(writers)
+    finished: set = set()
     if order is None:
         args = [(w, writers[w], -1, -1, str(root)) for w in range(k)]
         res = ds_.write_multiprocessing(feed_writer=gated_feed,
@@ -118,6 +155,7 @@ def play(fmt: str, spec, order: list[int] | None, root: Path):
 
     def controller():
         try:
+            left = collections.Counter(order)
             for w in order:
                 os.write(go[w][1], b"g")
                 rd, _, _ = select.select([ack[w][0]], [], [], 30)
@@ -125,6 +163,9 @@ def play(fmt: str, spec, order: list[int] | None, root: Path):
                     state["err"] = f"writer {w} did not acknowledge a step"
                     break
                 os.read(ack[w][0], 1)
+                left[w] -= 1
+                if not left[w]:
+                    finished.add(w)  # its filler context has been left
         except OSError as e:
             state["err"] = f"controller: {e}"
         finally:
@@ -140,12 +181,20 @@ def play(fmt: str, spec, order: list[int] | None, root: Path):
             for w in range(k)]
     exc = None
     res = None
+    if parent_log is not None:
+        if not _PHOOKED:
+            sys.addaudithook(_parent_audit)
+            _PHOOKED = True
+        _PARENT.update(on=True, root=str(root), log=parent_log,
+                       finished=finished)
     t.start()
     try:
         res = ds_.write_multiprocessing(feed_writer=gated_feed,
                                         custom_arguments=args)
     except Exception as e:  # pylint: disable=broad-except
         exc = f"{type(e).__name__}: {str(e)[:200]}"
+    finally:
+        _PARENT["on"] = False
     t.join(150)
     for r, w_ in go + ack:
         for fd in (r, w_):
@@ -230,6 +279,74 @@ def case(args) -> dict:
                 out["bad"].append(("order",
                                    f"{desc}: iteration gives {pseq}, the "
                                    f"one-after-another run {sseq}", case_))
+        out["outcomes"] = len(keys)
+    except Exception as e:  # pylint: disable=broad-except
+        out["harness"] = f"{type(e).__name__}: {e} " + traceback.format_exc(
+        )[-500:]
+    finally:
+        shutil.rmtree(box, ignore_errors=True)
+    return out
+
+
+def second_call_case(args) -> dict:
+    """A second multi-writer call on a dataset that already holds the result
+    of a first one (and of a root filler session), under every given
+    interleaving of the writers' steps.  Besides the recount: the parent must
+    not write into the directory of a writer that is still running."""
+    fmt, spec, orders = args
+    out = {"spec": spec, "fmt": fmt, "bad": [], "executions": 0,
+           "harness": None, "outcomes": 0}
+    box = core.fresh_dir("c09s")
+    try:
+        import multiprocessing
+        multiprocessing.set_start_method("fork", force=True)
+        keys = set()
+        for order in orders:
+            root = box / "par"
+            shutil.rmtree(root, ignore_errors=True)
+            out["executions"] += 1
+            desc = (f"{fmt} second multi-writer call, writers {spec}, "
+                    f"interleaving {order}")
+            case_ = {"fmt": fmt, "spec": spec, "order": order,
+                     "kind": "second"}
+            ds_, res0, err0 = play(fmt, spec, None, root)
+            ref: dict = {}
+            for items in writers_of(spec, 0):
+                for sp, idt in items:
+                    ref.setdefault(sp, []).append(idt)
+            log: list = []
+            pds, pres, err = play(fmt, spec, order, root, ds_=ds_, s=1,
+                                  parent_log=log)
+            if err:
+                out["bad"].append(("fails", f"{desc}: {err}", case_))
+                continue
+            for items in writers_of(spec, 1):
+                for sp, idt in items:
+                    ref.setdefault(sp, []).append(idt)
+            # directories owned by the writers of the second call
+            owned = {}
+            for r in pres:
+                for p in r[2]:
+                    if p.endswith("shards_list.json") or "." in \
+                            os.path.basename(p):
+                        owned.setdefault(os.path.dirname(p), set()).add(r[0])
+            owned = {d: ws for d, ws in owned.items()
+                     if len(ws) == 1 and os.path.basename(d) not in (
+                         "train", "test", "holdout") and d != str(root)}
+            for p, fin in log:
+                d = os.path.dirname(p)
+                ws = owned.get(d)
+                if ws and not ws <= fin:
+                    out["bad"].append(
+                        ("parent-writes-into-running-writer",
+                         f"{desc}: the parent wrote {p[len(str(root)) + 1:]} "
+                         f"while writer {sorted(ws)[0]} of that directory "
+                         f"was still running", case_))
+                    break
+            pbad, pkey = opseq.inspect(root, pds, ref, 2, fmt)
+            keys.add(pkey)
+            for prop, sym, msg in pbad:
+                out["bad"].append((sym, f"{desc}: {msg}", case_))
         out["outcomes"] = len(keys)
     except Exception as e:  # pylint: disable=broad-except
         out["harness"] = f"{type(e).__name__}: {e} " + traceback.format_exc(
@@ -569,6 +686,30 @@ def run(ctx):
             for sym, msg, c in r["bad"]:
                 ctx.violation({"engine": "procgates", "symptom": sym,
                                "fmt": r["fmt"]}, msg, c)
+        stasks = []
+        for fmt_, spec_ in (("fb", SPECS[1]), ("fb", SPECS[0]),
+                            ("npz", SPECS[5])):
+            counts = [sum(n for _, n in parts) + 1 for parts in spec_]
+            orders = list(interleavings(counts))
+            if ctx.tier == "quick":
+                orders = orders[::3]
+            n = max(1, min(6, len(orders) // 4))
+            stasks += [(fmt_, spec_, orders[i::n]) for i in range(n)]
+        ns = 0
+        for r in ex.map(second_call_case, stasks):
+            if r["harness"]:
+                ctx.harness_error(f"second call {r['spec']}: {r['harness']}")
+                continue
+            ns += r["executions"]
+            ctx.add(states=r["outcomes"], transitions=r["executions"],
+                    traces_validated_against_impl=r["executions"])
+            for sym, msg, c in r["bad"]:
+                ctx.violation({"engine": "procgates", "symptom": sym,
+                               "fmt": r["fmt"], "call": "second"}, msg, c)
+        ctx.part("a second multi-writer call on a dataset holding the first "
+                 "one: interleavings of the writers' steps, recount, and no "
+                 "parent write into a running writer's directory",
+                 executions=ns)
         wide = [[("train", 1)], [("test", 2)], [], [("train", 3), ("test", 1)],
                 [("holdout", 1)], [("train", 2)]]
         vtasks = [(f, sp, cpu, single)
@@ -664,6 +805,9 @@ def replay(case_):
             return ([str(err)] if err else []) + [m for _, m, _ in r["bad"]]
         finally:
             shutil.rmtree(box, ignore_errors=True)
+    if case_.get("kind") == "second":
+        r = second_call_case((case_["fmt"], spec, [case_["order"]]))
+        return [m for _, m, _ in r["bad"]]
     if case_.get("kind") == "env":
         r = env_case((case_["fmt"], spec, case_["cpu"], case_["single"]))
         return [m for _, m, _ in r["bad"]]
